@@ -698,6 +698,14 @@ func runC08(c *RunCtx) {
 			c.Fire("net.flip")
 			changed = true
 		}
+	case mode == 6 && t.Intn(2) == 0 && frameGeoms[name] != nil:
+		if aw, ok := appendedFields(t, s.w, name); ok {
+			w, desc = aw, "peer on a newer protocol revision (extra bytes behind the body, length field covering them)"
+			c.Fire("net.foreign")
+			changed = true
+		} else {
+			w, desc = cloneBytes(s.w), "unfaulted"
+		}
 	case mode == 6:
 		w = noise(t, len(s.w))
 		desc = "noise"
@@ -1362,16 +1370,48 @@ func runC16(c *RunCtx) {
 		// ---- decode side
 		slack := []int{0, 1, 64, 4096}[t.Intn(4)]
 		lead := []int{0, 3, 64}[t.Intn(3)] // bytes already consumed in the pooled buffer
-		arr := make([]byte, lead+len(s.w)+slack)
-		copy(arr[lead:], s.w)
-		buf := bytes.NewBuffer(arr[:lead+len(s.w)])
+		// what arrives: the valid encoding, or a faulted one (cut short, unknown discriminator,
+		// bit flips, a newer-revision frame) - whatever the decoder makes of it, success or error,
+		// what it left in the receiver must not depend on the buffer afterwards
+		in := s.w
+		fdesc := "valid encoding"
+		if t.Intn(2) == 0 {
+			spans, total := Layout(s.post)
+			if total != len(s.w) {
+				spans = nil
+			}
+			switch t.Intn(4) {
+			case 0:
+				if len(s.w) > 0 {
+					k := t.Intn(len(s.w))
+					in, fdesc = s.w[:k], fmt.Sprintf("cut(%d of %d)", k, len(s.w))
+				}
+			case 1:
+				if w2, d, ok := unknownDiscriminator(t, s.w, spans); ok {
+					in, fdesc = w2, d
+				}
+			case 2:
+				in, fdesc = flipBits(t, s.w, spans)
+			default:
+				if w2, ok := appendedFields(t, s.w, name); ok {
+					in, fdesc = w2, "newer-revision frame (extra bytes behind the body)"
+				}
+			}
+		}
+		arr := make([]byte, lead+len(in)+slack)
+		copy(arr[lead:], in)
+		buf := bytes.NewBuffer(arr[:lead+len(in)])
 		buf.Next(lead)
 		recv := newValue(name)
 		r := tryDecode(recv, buf)
-		if r.Panic != nil || r.Err != nil {
-			c.Probe("skip.decode-failed")
+		if r.Panic != nil {
+			c.Probe("skip.decode-panicked(reported-by-C09)")
 			return
 		}
+		if r.Err != nil {
+			c.Probe("decode-failed:partial-receiver-checked")
+		}
+		c.Logf("INPUT %s -> err=%v", fdesc, r.Err)
 		snap := Clone(recv)
 		// pool recycles the buffer
 		pat := byte(0xA5 + t.Intn(3))
@@ -1402,7 +1442,11 @@ func runC16(c *RunCtx) {
 		okk, d := Equal(snap, recv)
 		c.T.Observe(uint64(len(s.w)))
 		if !okk {
-			c.Fail("C16/message-aliases-buffer", name, "after the source buffer was overwritten and reused, the decoded %s changed at %s — it shares memory with the buffer", name, d)
+			what := "the decoded"
+			if r.Err != nil {
+				what = "what the failed decode left in the"
+			}
+			c.Fail("C16/message-aliases-buffer", name, "after the source buffer was overwritten and reused, %s %s (input: %s) changed at %s — it shares memory with the buffer", what, name, fdesc, d)
 		}
 		return
 	}
